@@ -1,6 +1,7 @@
 package main
 
 import (
+	"strings"
 	"fmt"
 	"go/token"
 	"go/types"
@@ -282,6 +283,10 @@ func runC12(c *Ctx) {
 		r.Check("R12.5", "tabular.ATable", "no address of a columns element escapes; elements are pointers", cols.Pos(), isPtr, fmt.Sprintf("%d element accesses examined", nuse))
 	}
 	r.Floor("R12.5", "accesses to elements of ATable.columns", nuse, 3)
+	// premise: growth keeps every existing column where it was (the count/slice bookkeeping of C02's R02.3)
+	importPremises(c, "R12.5", "column-bookkeeping premise ", "a growth step that loses or shifts a slot replaces a column by a fresh one: its properties vanish and earlier handles go stale", func(o *Ob) bool {
+		return o.Rule == "R02.3" && (strings.Contains(o.Construct, "olumn") || strings.Contains(o.Func, "resize"))
+	}, func() { runC02(c) })
 }
 
 // c12Strip checks the shape of the (recursive) strip function.
